@@ -17,7 +17,7 @@ from mc.runner import chunked, jdump, pmap
 
 LEVEL = "exploration"
 SHAPES = [0.01, 0.02, 0.05, 0.1, 0.2, 0.5, 1.0, 2.0, 5.0, 10.0, 20.0, 50.0, 100.0]
-PINVS = [None, 0.01, 0.1, 0.5, 0.9, 0.99, 0.9995, 1.0 - 1e-6, 1.0 - 1e-9]  # [0,1): sweep towards 1
+PINVS = [None, 0.0, 0.01, 0.1, 0.5, 0.9, 0.99, 0.9995, 1.0 - 1e-6, 1.0 - 1e-9]  # [0,1): both ends
 MUS = [None, 0.5, 3.0]
 # thorough tier: finer lattice (eighth-decade shapes, more invariant proportions and rate multipliers)
 SHAPES_T = sorted(set(SHAPES + [round(10 ** (e / 8), 6) for e in range(-16, 17)]))
